@@ -1,4 +1,5 @@
 """C19 - end to end over real Unix sockets (tokio / smol) nothing is lost or corrupted (R19.1 - R19.6)."""
+import re
 import mir
 from mir import op_place, op_str, place_is_local
 import common as C
@@ -205,6 +206,29 @@ def check(fx, rep, tier):
         ok = t['callee'].get('name') == 'fetch_add' and one and bd.name == 'new' and 'connection::Connection' in (bd.impl_self or '')
     rep.check(ok, 'R19.1', 'connection|id-counter-single-fetch-add', 'zlink-core/src/connection/mod.rs',
               'the id counter is used exactly once: NEXT_ID.fetch_add(1) in Connection::new', 'the connection id counter is not used as a single fetch_add(1) in Connection::new', det)
+    # width: identifiers are distinct only as long as the counter and the fields that carry them do not wrap within the life of a process
+    # (a u8 / u16 counter repeats after 256 / 65 536 connections)
+    stat_tys = set()
+    for body in core.bodies:
+        if body.in_test:
+            continue
+        for b, i, s in body.iter_assigns():
+            for o in mir.rv_operands(s['rv']):
+                if o.get('k') == 'const' and o.get('static') and 'atomic' in (o.get('ty') or '').lower() and 'connection' in o['static']:
+                    stat_tys.add(re.sub(r'^[&*](mut |const )?', '', (o.get('ty') or '').strip()).split('::')[-1])
+    narrow_at = sorted(t for t in stat_tys if re.search(r'Atomic[UI](8|16)\b', t))
+    rep.check(bool(stat_tys) and not narrow_at, 'R19.1', 'connection|id-counter-width', 'zlink-core/src/connection/mod.rs',
+              'the id counter is an atomic of at least 32 bits (%s)' % ', '.join(sorted(stat_tys)),
+              'the id counter has type %s: it wraps after 2^%s connections and identifiers repeat' % (', '.join(narrow_at) or sorted(stat_tys), '8' if any('8' in t for t in narrow_at) else '16'))
+    narrow_f = []
+    for p_, a in core.adts.items():
+        if p_.endswith('ReadConnection') or p_.endswith('WriteConnection'):
+            for v in a.get('variants') or []:
+                for f in v.get('fields') or []:
+                    if f.get('name') == 'id' and (f.get('ty') or '') in ('u8', 'u16', 'i8', 'i16'):
+                        narrow_f.append('%s.id: %s' % (p_.split('::')[-1], f.get('ty')))
+    rep.check(not narrow_f, 'R19.1', 'connection|id-field-width', 'zlink-core/src/connection',
+              'the id fields of both halves are at least 32 bits wide', 'identifier field narrower than 32 bits (%s): distinct counter values collapse into the same identifier' % ', '.join(narrow_f))
     # id field stores
     bad = []
     n_id = 0
